@@ -264,6 +264,23 @@ def _run(ctx, st):
                     j += 1
                     if ctx.mine(j):
                         classify(text, st, ctx, "odd-codepoints")
+    # (5c) string arguments that are hostile to whatever a function might feed them to:
+    # regular expressions, format strings, numbers, dates, paths
+    hostile = ["a{4294967295}", "a{4294967294}", "a{1,4294967296}", "(" * 600, "(" * 600 + ")" * 600, "[", "(?P<n>", "(?P<n>a)(?P<n>b)",
+               "\\", "a**", "(a+)+$", "(?i)a", "\\1", "[z-a]", "\\p{L}", "{0}", "%s", "%(x)s", "%", "{", "}", "{x!r:>{y}}",
+               "9" * 5000, "1e999999", "-" * 3000, "0000-00-00", "99999-99-99", "../../etc/passwd", "\x00", "a\nb",
+               "'" * 1, "''", "P" + "9" * 400 + "D", "POINT(" + "1 " * 2000 + ")"]
+    funcs1 = ["matchesPattern(title, %s)", "contains(title, %s)", "startswith(%s, title)", "indexof(title, %s) eq 1",
+              "substring(%s, 1) eq 'a'", "concat(%s, %s) eq 'a'", "length(%s) eq 1", "tolower(%s) eq 'a'", "trim(%s) eq 'a'",
+              "date(%s) eq 2020-01-01", "year(%s) eq 1", "round(%s) eq 1", "geo.length(%s) eq 1", "my.f(%s)", "title in (%s,)",
+              "title eq %s", "x/any(y: matchesPattern(y, %s))"]
+    j = 0
+    for hs in hostile:
+        q = "'" + hs.replace("'", "''") + "'"
+        for f in funcs1:
+            j += 1
+            if ctx.mine(j):
+                classify(f.replace("%s", q), st, ctx, "hostile-argument")
     # (5b) constructs of the OData ABNF the library does not implement
     from .c20 import ABNF_UNSUPPORTED
     for k, text in enumerate(ABNF_UNSUPPORTED):
